@@ -26,7 +26,7 @@ impl Up {
 }
 
 #[derive(Clone, Debug, Serialize, Deserialize)]
-pub enum Step { Upgrade { op: usize, signed: bool }, Migrate { op: usize, signed: bool, x: u32 }, RealUpgradeAtEnd { op: usize, signed: bool } }
+pub enum Step { Wait { n: u32 }, Upgrade { op: usize, signed: bool }, Migrate { op: usize, signed: bool, x: u32 }, RealUpgradeAtEnd { op: usize, signed: bool } }
 #[derive(Clone, Debug, Serialize, Deserialize)]
 pub struct Cfg {}
 pub struct Upgrade;
@@ -45,6 +45,9 @@ impl Check for Upgrade {
         steps.push(Step::RealUpgradeAtEnd { op: if rng.chance(80) { 0 } else { 1 }, signed: !rng.chance(15) });
         (Cfg {}, steps)
     }
+    fn clock_step(&self, n: u32) -> Option<Step> {
+        Some(Step::Wait { n })
+    }
     fn probes(&self, _prop: &str) -> std::vec::Vec<&'static str> {
         vec!["probe.real_upgrade_executed"]
     }
@@ -56,7 +59,14 @@ impl Check for Upgrade {
         let c = UpClient::new(e, &id);
         let (mut flag, mut count) = (false, 0u32);
         for (i, s) in steps.iter().enumerate() {
+            if let Step::Wait { n } = s {
+                w.advance(*n);
+                st.ledgers += *n as u64;
+                st.hit("clock.advance");
+                continue;
+            }
             match s {
+                Step::Wait { .. } => unreachable!("handled above"),
                 Step::Upgrade { op, signed } => {
                     if *signed { w.set_auth(&[(*op, Inv::new(&id, "sim_upgrade", (a(*op),).into_val(e)))]) } else { w.set_auth(&[]) }
                     let g = c.try_sim_upgrade(&a(*op)).is_ok();
